@@ -104,7 +104,7 @@ def run_case(acc, cseed, spec, stack_holder):
     if rng.random() < 0.15:
         pol["header_stop"] = {rng.randrange(nb): rng.choice([1, 10, 80, 100])}
     if rng.random() < 0.15:
-        pol["late"] = rng.randint(1, 2)
+        pol["late"] = rng.choice([1, 2, 3, 4, 6, 12])
     ask_mask = [rng.random() < 0.7 for _ in range(nb)]
     pol["ask_brothers"] = lambda i, m=ask_mask: m[i]
     chunk = gen_policy(rng)
